@@ -60,6 +60,6 @@ def run(ctx):
     ctx.cov["bitmask_types"] = nbit
     ctx.cov["rule"] = ("every defining enum type of the 19 shipped dialects (list generated from the sources at check time): every defined "
                        "constant, for bitmasks 0 and seeded unions of defined flags (incl. all flags), for ordinary enums boundary and "
-                       "seeded values over the full uint64 range, ~23 junk texts; distinct = (type, value) pairs")
+                       "seeded values over the full uint64 range, each text parsed into a fresh variable and into one holding another value, ~23 junk texts; distinct = (type, value) pairs")
     ctx.assumptions += ["an enum is treated as a bitmask iff its generated MarshalText joins names with ' | ' (the dialect XML is not shipped)",
                         "alias types (type X = other.X) are the same Go type and are probed once, at their definition"]
